@@ -23,6 +23,11 @@ pub fn seed_names(thorough: bool) -> Vec<String> {
         v.push("new-v4-legion".into());
         v.push("new-v0".into());
         v.push("old-min".into());
+        // new-format version words 2 (MoP) and 3 (WoD); an old-format file whose index count (3) is a legal new-format
+        // version, so that detect_skin_format has to decide by the plausibility of the array references
+        v.push("new-v2-mop".into());
+        v.push("new-v3-wod".into());
+        v.push("old-3idx".into());
     }
     v
 }
@@ -71,7 +76,10 @@ struct Parts {
 }
 
 fn parts(nsub: u16) -> Parts {
-    let nv = (3 * nsub).max(6);
+    parts_nv(nsub, (3 * nsub).max(6))
+}
+
+fn parts_nv(nsub: u16, nv: u16) -> Parts {
     Parts {
         indices: (0..nv).collect(),
         triangles: (0..nv).map(|i| (i + 1) % nv).collect(),
@@ -149,8 +157,12 @@ fn inventory(s: &mut Seed, arrays_at: usize, p: &Parts) {
 
 pub fn build(name: &str) -> Seed {
     match name {
-        "old-2sub" | "old-min" => {
-            let p = if name == "old-min" { parts(0) } else { parts(2) };
+        "old-2sub" | "old-min" | "old-3idx" => {
+            let p = match name {
+                "old-min" => parts(0),
+                "old-3idx" => parts_nv(1, 3),
+                _ => parts(2),
+            };
             let mut h = OldSkinHeader::new();
             h.bone_count_max = 21;
             let skin = OldSkin {
@@ -164,15 +176,25 @@ pub fn build(name: &str) -> Seed {
             let mut out = Cursor::new(Vec::new());
             skin.write(&mut out).expect("skin: OldSkin::write");
             let mut s = Seed::new("skin", name, out.into_inner());
-            assert!(s.u32_at(4) > 4, "skin: old-format seed must have more than 4 indices");
+            if name == "old-3idx" {
+                // read as a new-format header, the array references at 20.. are the old header's bone_indices / submeshes /
+                // batches pairs, (bone_count_max, first index data word) and index data: the fourth pair points far outside
+                // the file, which is what makes detect_skin_format reject the new-format reading
+                assert_eq!(s.u32_at(4), 3);
+                assert!(s.u32_at(48) as usize > s.bytes.len(), "skin: old-3idx must not look like a new-format file");
+            } else {
+                assert!(s.u32_at(4) > 4, "skin: old-format seed must have more than 4 indices");
+            }
             s.field(0, 4, "index", "hdr.magic");
             inventory(&mut s, 4, &p);
             assert_eq!(s.u32_at(44), 21);
             s.field(44, 4, "index", "hdr.bone_count_max");
             s
         }
-        "new-v4-bfa" | "new-v1-cata" | "new-v4-legion" | "new-v0" => {
+        "new-v4-bfa" | "new-v1-cata" | "new-v4-legion" | "new-v0" | "new-v2-mop" | "new-v3-wod" => {
             let (ver, nsub) = match name {
+                "new-v2-mop" => (M2Version::MoP, 1),
+                "new-v3-wod" => (M2Version::WoD, 2),
                 "new-v4-bfa" => (M2Version::BfA, 2),
                 "new-v1-cata" => (M2Version::Cataclysm, 3),
                 "new-v4-legion" => (M2Version::Legion, 1),
